@@ -7,8 +7,11 @@
 use crate::exec;
 use reactive_graph::{
     computed::Memo,
-    effect::Effect,
-    owner::{on_cleanup, provide_context, use_context, verif_arena_len, Owner, StoredValue},
+    effect::{Effect, ImmediateEffect, RenderEffect},
+    owner::{
+        on_cleanup, provide_context, use_context, verif_arena_len, LocalStorage, Owner, StoredValue,
+        SyncStorage,
+    },
     signal::{ArcTrigger, RwSignal},
     traits::{Dispose, GetUntracked, GetValue, Notify, Track},
 };
@@ -17,6 +20,13 @@ use vsexp::{Lst, Num, Sexp};
 
 #[derive(Clone)]
 struct Cx<const N: usize>(i64);
+
+/// the handle of an effect with a task
+enum EffH {
+    Local(Effect<LocalStorage>),
+    Sync(Effect<SyncStorage>),
+    Render(Option<RenderEffect<()>>),
+}
 
 enum Handle {
     Sig(RwSignal<i64>),
@@ -28,7 +38,9 @@ struct Ctx {
     log: Vec<Sexp>,
     /// per owner id: the handle the harness still holds (user scopes only) and the scope body
     owners: Vec<(Option<Owner>, bool, Sexp)>,
-    effects: Vec<(Option<Effect<reactive_graph::owner::LocalStorage>>, ArcTrigger)>,
+    /// one entry per spawned task, in spawn order
+    effects: Vec<(EffH, ArcTrigger)>,
+    imms: Vec<(Option<ImmediateEffect>, ArcTrigger)>,
     memos: Vec<(Memo<i64>, ArcTrigger)>,
     handles: Vec<Handle>,
     next_cid: usize,
@@ -124,27 +136,88 @@ fn exec_stmt(st: &Sexp) {
             o.with(|| exec_body(&body));
             drop(o);
         }
-        6 => {
+        6 | 9 | 10 => {
+            let tag = st.at(0).num();
             let body = st.at(1).clone();
             let eid = ctx(|c| c.effects.len());
             let trig = ArcTrigger::new();
-            ctx(|c| {
-                c.effects.push((None, trig.clone()));
-                c.owners.push((None, false, body.clone()));
-            });
+            ctx(|c| c.owners.push((None, false, body.clone())));
             let before = exec::spawned();
-            let e = Effect::new(move |_| {
-                trig.track();
+            let t2 = trig.clone();
+            let run = move || {
+                t2.track();
                 log(Lst(vec![Num(2), Num(eid as i64)]));
                 exec_body(&body);
-            });
+            };
+            let (h, k) = match tag {
+                6 => {
+                    let e = Effect::new(move |_| run());
+                    let k = node_id(&format!("{e:?}"));
+                    (EffH::Local(e), k)
+                }
+                9 => {
+                    let e = Effect::new_isomorphic(move |_| run());
+                    let k = node_id(&format!("{e:?}"));
+                    (EffH::Sync(e), k)
+                }
+                _ => {
+                    // the scope body is the dependency function; the handler does nothing
+                    let e = Effect::watch(run, |_: &(), _, _: Option<()>| (), false);
+                    let k = node_id(&format!("{e:?}"));
+                    (EffH::Local(e), k)
+                }
+            };
             assert_eq!(exec::spawned(), before + 1, "one task per effect");
             assert_eq!(before, eid, "task number = effect number");
-            let k = node_id(&format!("{e:?}"));
             ctx(|c| {
-                c.effects[eid].0 = Some(e);
+                c.effects.push((h, trig));
                 c.keys.push(k)
             });
+        }
+        8 => {
+            // RenderEffect: first run at once (effects created by the body spawn their tasks
+            // first), no arena entry; the handle is retained here
+            let body = st.at(1).clone();
+            let oid = ctx(|c| {
+                c.owners.push((None, false, body.clone()));
+                c.owners.len() - 1
+            });
+            let trig = ArcTrigger::new();
+            let t2 = trig.clone();
+            let eid_cell = std::sync::Arc::new(std::sync::atomic::AtomicUsize::new(usize::MAX));
+            let cell2 = eid_cell.clone();
+            let e = RenderEffect::new(move |prev: Option<()>| {
+                t2.track();
+                if prev.is_none() {
+                    log(Lst(vec![Num(6), Num(oid as i64)]));
+                } else {
+                    let eid = cell2.load(std::sync::atomic::Ordering::SeqCst);
+                    log(Lst(vec![Num(2), Num(eid as i64)]));
+                }
+                exec_body(&body);
+            });
+            let eid = ctx(|c| {
+                c.effects.push((EffH::Render(Some(e)), trig));
+                c.effects.len() - 1
+            });
+            eid_cell.store(eid, std::sync::atomic::Ordering::SeqCst);
+            assert_eq!(exec::spawned(), eid + 1, "task number = effect number");
+        }
+        11 => {
+            let body = st.at(1).clone();
+            let iid = ctx(|c| {
+                c.owners.push((None, false, body.clone()));
+                c.imms.len()
+            });
+            let trig = ArcTrigger::new();
+            ctx(|c| c.imms.push((None, trig.clone())));
+            let t2 = trig.clone();
+            let e = ImmediateEffect::new(move || {
+                t2.track();
+                log(Lst(vec![Num(7), Num(iid as i64)]));
+                exec_body(&body);
+            });
+            ctx(|c| c.imms[iid].0 = Some(e));
         }
         7 => {
             let body = st.at(1).clone();
@@ -270,10 +343,35 @@ fn step(op: &Sexp) {
             }
         }
         24 => {
-            let e = ctx(|c| c.effects.get(a as usize).and_then(|e| e.0));
-            if let Some(e) = e {
-                e.dispose();
+            // take what is needed out of the context first: dropping may run cleanups that log
+            enum D {
+                L(Effect<LocalStorage>),
+                S(Effect<SyncStorage>),
+                R(Option<RenderEffect<()>>),
+                N,
             }
+            let d = ctx(|c| match c.effects.get_mut(a as usize) {
+                Some((EffH::Local(e), _)) => D::L(*e),
+                Some((EffH::Sync(e), _)) => D::S(*e),
+                Some((EffH::Render(r), _)) => D::R(r.take()),
+                None => D::N,
+            });
+            match d {
+                D::L(e) => e.dispose(),
+                D::S(e) => e.dispose(),
+                D::R(r) => drop(r),
+                D::N => {}
+            }
+        }
+        26 => {
+            let t = ctx(|c| c.imms.get(a as usize).map(|m| m.1.clone()));
+            if let Some(t) = t {
+                t.notify();
+            }
+        }
+        27 => {
+            let h = ctx(|c| c.imms.get_mut(a as usize).and_then(|m| m.0.take()));
+            drop(h);
         }
         20 => {
             if let Some((o, _)) = user(a) {
@@ -319,7 +417,7 @@ fn canon_keys(keys: &[(u64, u64)]) -> Sexp {
 
 pub fn run(c: &Sexp) -> Sexp {
     exec::reset();
-    CTX.with(|x| *x.borrow_mut() = Ctx::default());
+    drop(CTX.with(|x| std::mem::take(&mut *x.borrow_mut())));
     let len0 = verif_arena_len();
     let body = c.at(0).clone();
     let root = Owner::new();
@@ -337,6 +435,19 @@ pub fn run(c: &Sexp) -> Sexp {
     for o in 0..n {
         drop_owner(o as i64);
     }
+    let ne = ctx(|x| x.effects.len());
+    for e in 0..ne {
+        let r = ctx(|x| match &mut x.effects[e].0 {
+            EffH::Render(r) => r.take(),
+            _ => None,
+        });
+        drop(r);
+    }
+    let ni = ctx(|x| x.imms.len());
+    for i in 0..ni {
+        let h = ctx(|x| x.imms[i].0.take());
+        drop(h);
+    }
     exec::run_all(&[], 100_000);
     let l = ctx(|x| std::mem::take(&mut x.log));
     let fin = Lst(vec![
@@ -347,7 +458,7 @@ pub fn run(c: &Sexp) -> Sexp {
     ]);
     let live = exec::live();
     exec::reset();
-    CTX.with(|x| *x.borrow_mut() = Ctx::default());
+    drop(CTX.with(|x| std::mem::take(&mut *x.borrow_mut())));
     assert_eq!(live, 0, "every effect task has ended once all scopes are gone");
     Lst(vec![o0, Lst(trace), fin])
 }
